@@ -15,6 +15,7 @@ documented element / media type per type comes from the harness's own table.
 
 from __future__ import annotations
 
+import controls_gen
 import formobs
 import impl
 import vcore
@@ -29,22 +30,103 @@ RULE = (
     "invalid parameter cells x label/hint/neither/media x calculation x trigger, groups/repeats with appearance/intent/body::x and "
     "count cells of all shapes (constant, expression, bare reference, reference-prefixed expression, function call), table-list "
     "groups, unlabelled sections of invisible rows, empty sections; on 25-35% of the sheets rows marked disabled of every kind "
-    "(questions, selects, audit, begin/end, rows that would be rejected) and falsy marks on active rows; non-trivial = accepted and "
+    "(questions, selects, audit, begin/end, rows that would be rejected) and falsy marks on active rows; on 20-30% every combination "
+    "of the meta-shaping settings (omit_instanceID x instance_name x instance_id x public_key, entities); 12% of all cases re-delivered "
+    "as xlsx with spacer / trailing columns; non-trivial = accepted and "
     "containing a group/repeat or a control with attributes"
 )
 
 
 def model_call(ctx, form, root="data"):
-    """The structural pipeline plus the control attributes (`controls.model`)."""
-    if form.get("entities"):
-        return {"outcome": "unsupported", "why": "entities sheet"}
-    rows = [formobs.canon_cells(x) for x in form["survey"]]
-    lists = sorted({x.get("list_name", x.get("list name", "")) for x in form.get("choices", [])})
-    settings = formobs.canon_cells(form["settings"][0]) if form.get("settings") else []
-    for k, v in settings:
-        if k == "name":
-            root = v
-    return ctx.driver.call("controls.model", rows=rows, lists=lists, settings=settings, root=root)
+    """The structural pipeline plus the control attributes (`controls.model`; entity forms are composed with
+    `entities.model` inside the op)."""
+    return formcommon.model_call(ctx, form, root=root, op="controls.model")
+
+
+def meta_settings(rng, form):
+    """Every combination of the settings that shape the generated meta block: omit_instanceID (truthy / falsy /
+    absent) x instance_name x instance_id x public_key (with omit: rejected) — audit rows and the entities sheet
+    come from the other streams."""
+    import copy
+
+    form = copy.deepcopy(form)
+    st = dict(form["settings"][0]) if form.get("settings") else {}
+    o = rng.choice(["absent", "absent", "truthy", "truthy", "falsy"])
+    if o != "absent":
+        st["omit_instanceID"] = rng.choice(controls_gen.TRUTHY if o == "truthy" else controls_gen.FALSY)
+    if rng.random() < 0.5:
+        st["instance_name"] = rng.choice(["'fixed name'", "concat('a', 'b')", "uuid()"])
+    if rng.random() < 0.3:
+        st["instance_id"] = rng.choice(["uid", "concat('x', uuid())"])
+    if rng.random() < 0.15:
+        st["public_key"] = "MIIBIjANBgkqhkiG9w0BAQEFAAOCAQ8A"
+        if rng.random() < 0.7:
+            st["submission_url"] = "https://example.org/submission"
+    if rng.random() < 0.3:
+        st["form_id"] = "f_meta"
+    if rng.random() < 0.12 and not form.get("entities") and not any(r.get("save_to") for r in form["survey"]):
+        form["entities"] = [{"dataset": rng.choice(["people", "trees"]), "label": "concat('e', 'x')"}]
+    if st:
+        form["settings"] = [st]
+    return form
+
+
+def xlsx_bytes(rng, form):
+    """The workbook as in-memory xlsx with content-neutral layout noise: unnamed spacer columns between named
+    headers (sometimes with stray text below them), trailing empty columns, blank rows where the form has them.  None when a cell cannot
+    be written to xlsx."""
+    import containers as C
+
+    grids = []
+    for sheet in impl.SHEETS:
+        rows = form.get(sheet)
+        if rows is None:
+            continue
+        cols = impl.headers_of(rows, form.get(sheet + "_cols"))
+        layout = []
+        for c in cols:
+            while rng.random() < 0.25:
+                layout.append(None)
+            layout.append(c)
+        layout += [None] * rng.choice([0, 0, 1, 3])
+        grid = [[("s", c) for c in layout]]
+        for r in rows:      # a blank row of the form ({}) becomes a blank sheet row: row numbers are part of generated names
+            line = []
+            for c in layout:
+                if c is None:
+                    line.append(("s", "stray" if rng.random() < 0.2 else None))
+                else:
+                    v = r.get(c)
+                    v = None if v in (None, "") else str(v)
+                    if v is not None and (not C.xlsx_text_ok(v) or v != v.strip() or "  " in v or "\n" in v):
+                        return None
+                    line.append(("s", v))
+            grid.append(line)
+        grids.append({"name": sheet, "grid": grid})
+    return C.to_xlsx(grids)
+
+
+def container_case(ctx, form, r):
+    """The same workbook through the xlsx container with layout noise must give the same outcome, instance tree,
+    control list and control attributes as the dict input."""
+    import io
+
+    data = xlsx_bytes(ctx.rng, form)
+    if data is None:
+        return
+    ctx.count("xlsx container")
+    x = impl.run_raw(io.BytesIO(data), file_type=".xlsx")
+    if x["class"] != r["class"]:
+        ctx.fail(Failure("container-outcome", f"dict input: {r['class']} {r.get('msg', '')[:120]!r}; the same sheet as xlsx with spacer "
+                         f"columns: {x['class']} {x.get('msg', '')[:120]!r}", {"form": form}))
+        return
+    if r["ok"]:
+        a, b = formobs.observe(r["xform"]), formobs.observe(x["xform"])
+        ca, cb = formobs.observe_controls(r["xform"]), formobs.observe_controls(x["xform"])
+        if not formobs.nt_eq(a["instance"], b["instance"]) or sorted(a["binds"]) != sorted(b["binds"]) or ca != cb:
+            diff = next((f"{p} vs {q}" for p, q in zip(ca, cb) if p != q), "instance / binds / number of controls")
+            ctx.fail(Failure("container-shift", "the sheet read from xlsx (unnamed spacer columns, trailing columns, blank rows) gives "
+                             f"other nodes / controls than the same cells as dict: {diff}", {"form": form}))
 
 
 # the harness's own copy of the documented control element / media type per question type (XLSForm
@@ -96,6 +178,12 @@ def form_case(ctx, form, family="structure"):
             ctx.fail(Failure("instance-shape", "primary instance differs from the row structure: impl "
                              + formobs.nt_str(obs["instance"]) + " spec " + formobs.nt_str(m["instance"]), {"form": form}))
             ctx.mismatch("instance tree", form, formobs.nt_str(obs["instance"]), formobs.nt_str(m["instance"]))
+        if sorted(obs["binds"]) != sorted(m["binds"]):
+            only_i = sorted(set(obs["binds"]) - set(m["binds"]))[:4]
+            only_m = sorted(set(m["binds"]) - set(obs["binds"]))[:4]
+            ctx.fail(Failure("bind-nodes", f"bind nodesets differ from the row structure / meta block: only implementation {only_i}, "
+                             f"only model {only_m}", {"form": form}))
+            ctx.mismatch("bind nodesets", form, only_i, only_m)
         if [list(x) for x in obs["ctl"]] != [list(x) for x in m["ctl"]]:
             ctx.fail(Failure("body-shape", f"body controls differ: impl {obs['ctl']} spec {m['ctl']}", {"form": form}))
             ctx.mismatch("body controls", form, obs["ctl"], m["ctl"])
@@ -131,6 +219,8 @@ def form_case(ctx, form, family="structure"):
     elif r["class"] == "internal" and m["outcome"] in ("ok", "error"):
         ctx.mismatch("implementation crashes", form, r["msg"][:300], m["outcome"])
         ctx.fail(Failure("crash", "internal exception " + r["msg"][:200] + " at " + r.get("site", ""), {"form": form}))
+    if ctx.rng.random() < 0.12 and r["class"] in ("ok", "pyxform"):
+        container_case(ctx, form, r)
     ctx.record({"form": form}, nontrivial)
 
 
@@ -153,12 +243,18 @@ def explore(ctx, factor, bs):
             form["survey"] = rows
             form = controls_gen.disabled_noise(rng, form)
             ctx.count("disabled noise")
+        if rng.random() < 0.3:
+            form = meta_settings(rng, form)
+            ctx.count("meta settings")
         form_case(ctx, form)
     for i in range(ctx.pick(1500, 20000) * factor):
         form = controls_gen.attr_form(rng, big=not ctx.quick())
         if rng.random() < 0.25:
             form = controls_gen.disabled_noise(rng, form)
             ctx.count("disabled noise")
+        if rng.random() < 0.2:
+            form = meta_settings(rng, form)
+            ctx.count("meta settings")
         form_case(ctx, form, family="attributes")
 
 
